@@ -384,6 +384,7 @@ fn gen_lw(rng: &mut Rng, tier: u32) -> String {
     // read that delivers exactly the message (+0..3 bytes): the window then ends where the parser wants to look ahead
     let exact = trap && !serial && rng.chance(2);
     let mut first_read = 0usize;
+    let mut follow_msg = false;
     if exact {
         let mut it = gen_msg(rng, serial, true, false, 0, true);
         if let Item::M { ref mut payload, ref add, .. } = it {
@@ -391,12 +392,17 @@ fn gen_lw(rng: &mut Rng, tier: u32) -> String {
             let at = 20 + rng.below(200) as usize;
             payload[at..at + 4].copy_from_slice(b"DLT\x01");
         }
-        first_read = item_bytes(serial, &it).len() + rng.below(4) as usize;
+        // ... or is followed directly by the next message, and the first read delivers the message plus 4..15 bytes of it:
+        // the marker of the next message is in the window, its storage header is not complete yet
+        follow_msg = rng.chance(2);
+        first_read = item_bytes(serial, &it).len() + if follow_msg { 4 + rng.below(12) as usize } else { rng.below(4) as usize };
         total += item_bytes(serial, &it).len();
         items.push(it);
-        let g = 4 + rng.below(30) as usize;
-        items.push(Item::G((0..g).map(|_| marker_free_byte(rng)).collect()));
-        total += g;
+        if !follow_msg {
+            let g = 4 + rng.below(30) as usize;
+            items.push(Item::G((0..g).map(|_| marker_free_byte(rng)).collect()));
+            total += g;
+        }
     }
     while total < target {
         if rng.chance(12) {
@@ -446,6 +452,12 @@ fn gen_lw(rng: &mut Rng, tier: u32) -> String {
         .collect();
     let mut sizes = sizes;
     if first_read > 0 {
+        if follow_msg {
+            // then byte by byte: the parser is asked again with every byte that arrives
+            for _ in 0..24 {
+                sizes.insert(0, 1);
+            }
+        }
         sizes.insert(0, first_read);
     }
     let c = Case { i0: rng.below(1000) as u32, serial, big: false, items };
